@@ -85,12 +85,21 @@ def variant_region(b, f, sw, name, stop):
         """Edges of a switch on a bool local whose every definition is a literal (`matches!(..)` leaves such a flag): those of the literals assigned inside the region."""
         si = b.switch_info(x)
         d = si[0]
-        if not (isinstance(d, tuple) and d and d[0] == "var" and si[3] == "bool"):
+        if not (isinstance(d, tuple) and d and d[0] == "var"):
             return None
         defs = b.defs().get(d[1], [])
-        if not defs or any(dd[0] != "assign" or dd[3].get("k") != "use" or dd[3]["ops"][0].get("val") not in ("true", "false") for dd in defs):
+
+        def lit(dd):
+            if dd[0] != "assign" or dd[3].get("k") != "use" or dd[3]["ops"][0].get("k") != "const":
+                return None
+            v_ = dd[3]["ops"][0].get("val")
+            if v_ in ("true", "false"):
+                return 1 if v_ == "true" else 0
+            m_ = re.match(r"^(\d+)_(u|i)(8|16|32|64|128|size)$", str(v_))
+            return int(m_.group(1)) if m_ else None
+        if not defs or any(lit(dd) is None for dd in defs):
             return None
-        vals = {1 if dd[3]["ops"][0]["val"] == "true" else 0 for dd in defs if dd[1] in region}
+        vals = {lit(dd) for dd in defs if dd[1] in region}
         out = []
         for v in vals:
             hit = [t for vv, t in si[1] if vv == v]
